@@ -90,7 +90,7 @@ example :
       (.obj [("e", .enum "B"), ("kids", .obj [("v", .int 2147483647)])])).toOption =
     (coerceValue reg 10 (.named "Rec")
       (.obj [("e", .str "B"), ("kids", .obj [("v", .int 2147483647)])])).toOption :=
-  literal_variable_equiv reg (fun n _ _ h _ => (no_custom h).elim) none 10 _ _ _
+  literal_variable_equiv reg (fun n _ _ _ h _ => (no_custom h).elim) none 10 _ _ _
     (.obj (fs := recFields) rfl
       (.cons (fun f hf hn => by
           simp [recFields] at hf
@@ -177,7 +177,7 @@ def evenParse (_ : String) (v : JV) : ParseOut :=
   match v with
   | .int k => if k % 2 == 0 then .value (.int (k / 2)) else .refused
   | _ => .refused
-def evenParseLiteral (_ : String) (l : Lit) : ParseOut :=
+def evenParseLiteral (_ : String) (_ : List (String × PV)) (l : Lit) : ParseOut :=
   match l with
   | .int k => if k % 2 == 0 then .value (.int (k / 2)) else .refused
   | _ => .refused
@@ -190,15 +190,15 @@ example : coerceValue regEven 2 (.named "Even") (.int 7) = .error .coercion := b
 example : Conforms regEven (.named "Even") (.int 5) := .custom rfl (.inl ⟨.int 10, rfl, rfl⟩)
 /-- this scalar's two parsers agree, so literal/variable equivalence holds for it … -/
 example : CustomAgree regEven := by
-  intro n j l _ hs
+  intro n vs j l _ hs
   cases hs <;> simp [regEven, evenParse, evenParseLiteral]
 /-- … whereas `default_scalar` does not meet `CustomAgree` on numbers: `5` inline is the text "5", through a variable the int 5 -/
 example : ¬ CustomAgree (Reg.ofTypes [("Any", .custom)]) := by
   intro h
-  have := h "Any" (.int 5) (.int 5) rfl .int
+  have := h "Any" [] (.int 5) (.int 5) rfl .int
   simp [Reg.ofTypes, defaultScalarParse, defaultScalarParseLiteral, untypedLiteral, ParseOut.toR, Except.toOption, pvOfJson, jvAllFinite] at this
 /-- `customNotNone` cannot be dropped: a parser answering None puts None at a non-null position -/
-def regNoneScalar : Reg := { types := [("S", .custom)], customParse := fun _ _ => .value .none, customParseLiteral := fun _ _ => .refused,
+def regNoneScalar : Reg := { types := [("S", .custom)], customParse := fun _ _ => .value .none, customParseLiteral := fun _ _ _ => .refused,
                              customHasParseLiteral := fun _ => false }
 example : coerceValue regNoneScalar 2 (.nonNull (.named "S")) (.int 1) = .ok .none := by rfl
 
@@ -209,6 +209,10 @@ def regAny : Reg := Reg.ofTypes [("Any", .custom)]
 example : valueFromAst regAny none 2 (.named "Any") (.list [.int 1, .str "a", .enum "RED", .null, .obj [("k", .float "1.5"), ("k", .bool true)]]) =
     .ok (.list [.str "1", .str "a", .str "RED", .none, .dict [("k", .bool true)]]) := by rfl
 example : coerceValue regAny 2 (.named "Any") (.list [.int 1, .str "a"]) = .ok (.list [.int 1, .str "a"]) := by rfl
+/-- fix C06-H7: a variable inside a structured literal at the stand-in scalar stands for its value, and for None when it has none
+    (a missing variable is NOT an omitted key / item here: the stand-in scalar has no fields to default - compare known finding A9) -/
+example : valueFromAst regAny (some [("v", .int 3)]) 2 (.named "Any") (.obj [("a", .var "v"), ("b", .list [.var "w"])]) =
+    .ok (.dict [("a", .int 3), ("b", .list [.none])]) := by rfl
 /-- a custom scalar WITHOUT its own parse_literal stays restricted to scalar literals -/
 example : valueFromAst { regAny with customHasParseLiteral := fun _ => false } none 2 (.named "Any") (.list [.int 1]) = .error .coercion := by rfl
 
